@@ -13,6 +13,8 @@ pub enum Op {
     /// index into the list of live outputs (taken modulo its length; skipped when none is live)
     Next(usize),
     Drop(usize),
+    /// `n` consecutive frames from one output (a long lead over the others); the invariants are checked after the burst
+    Burst(usize, u32),
 }
 
 #[derive(Clone, Debug, Serialize, Deserialize)]
@@ -62,21 +64,31 @@ pub fn check(c: &Case, st: &mut Stats) -> CheckResult {
                 live.push((o, p));
                 ever_had_output = true;
             }
-            Op::Next(i) => {
+            Op::Next(_) | Op::Burst(..) => {
+                let (i, n) = match op {
+                    Op::Next(i) => (*i, 1u64),
+                    Op::Burst(i, n) => (*i, *n as u64),
+                    _ => unreachable!(),
+                };
                 if live.is_empty() {
                     continue;
                 }
                 let i = i % live.len();
-                let pos = live[i].1;
-                let got = live[i].0.next();
-                let exp_decode = Probe::<f64>::expected(c.src_len, c.tail, pos);
-                if pos == p {
-                    p += 1;
+                for _ in 0..n {
+                    let pos = live[i].1;
+                    let got = live[i].0.next();
+                    let exp_decode = Probe::<f64>::expected(c.src_len, c.tail, pos);
+                    if pos == p {
+                        p += 1;
+                    }
+                    live[i].1 += 1;
+                    match exp_decode {
+                        Some(e) => ensure!(got.decode() == Some(e), "op #{} {:?}: output (attached #{}) returned {:?} = frame {:?}, expected source frame {}", k, op, i, got, got.decode(), e),
+                        None => ensure!(got.is_equilibrium(), "op #{} {:?}: expected equilibrium past the end of the source, got {:?}", k, op, got),
+                    }
                 }
-                live[i].1 += 1;
-                match exp_decode {
-                    Some(e) => ensure!(got.decode() == Some(e), "op #{} {:?}: output (attached #{}) returned {:?} = frame {:?}, expected source frame {}", k, op, i, got, got.decode(), e),
-                    None => ensure!(got.is_equilibrium(), "op #{} {:?}: expected equilibrium past the end of the source, got {:?}", k, op, got),
+                if n > 1 && live.iter().any(|(_, q)| p - *q > 65_536) {
+                    st.class_if(true, "an output lags more than 65536 frames");
                 }
             }
             Op::Drop(i) => {
@@ -221,4 +233,27 @@ pub fn run(ctx: &mut Ctx) {
     let n = cases.len() as u64;
     ctx.par_enumerate("all-op-sequences", true, n, move |i| cases[i as usize].clone(), check);
     ctx.prop("random-op-sequences", ctx.pick(20_000, 300_000), case_strategy(300), check);
+    // long lags: the backlog is unbounded, an output that is 65535 .. 131073 frames behind still gets every frame
+    ctx.require_class("an output lags more than 65536 frames");
+    let mut cases = Vec::new();
+    for lag in [65_535u32, 65_536, 65_537, 70_000, 131_073] {
+        for third in [false, true] {
+            for src_len in [None, Some(lag as u64 + 2), Some(1000)] {
+                let mut ops = vec![Op::Send, Op::Send];
+                if third {
+                    ops.push(Op::Send);
+                    ops.push(Op::Burst(2, lag / 2));
+                }
+                ops.push(Op::Burst(0, lag));
+                ops.push(Op::Next(0));
+                ops.push(Op::Burst(1, 5));
+                ops.push(Op::Burst(1, lag));
+                ops.push(Op::Drop(1));
+                ops.push(Op::Next(0));
+                ops.push(Op::Next(1));
+                cases.push(Case { src_len, max_live: 3, ops, drop_bus_at: if third && lag == 70_000 { Some(5) } else { None }, tail: 0 });
+            }
+        }
+    }
+    ctx.enumerate("long-lags", false, cases.into_iter(), check);
 }
